@@ -92,6 +92,9 @@ func c09lazy(warm bool) *c09scen {
 		{name: "Level", run: func(g, k int) { _ = l.Level() }, units: cat(u(0, "Logger.Level"), en)},
 		{name: "Sync", run: func(g, k int) { _ = l.Sync() }, units: cat(u(0, "Logger.Sync"), u(1, "lazyWithCore.Sync"), u(2, "contextObserver.Sync"))},
 		{name: "Core.Enabled", run: func(g, k int) { _ = l.Core().Enabled(zapcore.InfoLevel) }, units: cat(u(0, "Logger.Core"), en)},
+		{name: "Core.Write", run: func(g, k int) { _ = l.Core().Write(zapcore.Entry{Level: zapcore.InfoLevel, Message: "cw"}, nil) },
+			units: cat(u(0, "Logger.Core"), u(1, "lazyWithCore.Write"), u(7, "contextObserver.Write"), u(3, "ObservedLogs.add")), mut: true},
+		{name: "Core.Sync", run: func(g, k int) { _ = l.Core().Sync() }, units: cat(u(0, "Logger.Core"), u(1, "lazyWithCore.Sync"), u(7, "contextObserver.Sync"))},
 		{name: "Sugar.Infow", run: func(g, k int) { s.Infow("sm", "k", k) }, units: cat(u(5, "SugaredLogger.Infow"), u(6, "Logger.Check"), en, ck, wr), mut: true},
 		{name: "SetLevel", run: func(g, k int) { c09toggle(lvl, k) }, units: u(4, "AtomicLevel.SetLevel"), mut: true},
 		{name: "GetLevel", run: func(g, k int) { _ = lvl.Level(); _ = lvl.String() }, units: u(4, "AtomicLevel.Level", "AtomicLevel.String")},
@@ -106,6 +109,7 @@ func c09lazy(warm bool) *c09scen {
 func c09sampler(warm bool) *c09scen {
 	lvl := zap.NewAtomicLevelAt(zapcore.InfoLevel)
 	core, logs := observer.New(lvl)
+	core = core.With([]zapcore.Field{zap.Int("a", 1), zap.Int("b", 2)}).With([]zapcore.Field{zap.Int("c", 3)}) // context: len 3, spare capacity
 	var dropped, sampled atomic.Int64
 	sc := zapcore.NewSamplerWithOptions(core, time.Millisecond, 2, 3, zapcore.SamplerHook(func(e zapcore.Entry, d zapcore.SamplingDecision) {
 		if d&zapcore.LogDropped != 0 {
@@ -147,6 +151,7 @@ func c09sampler(warm bool) *c09scen {
 func c09tee(warm bool) *c09scen {
 	lvl := zap.NewAtomicLevelAt(zapcore.InfoLevel)
 	ca, la := observer.New(lvl)
+	ca = ca.With([]zapcore.Field{zap.Int("a", 1), zap.Int("b", 2)}).With([]zapcore.Field{zap.Int("c", 3)}) // context: len 3, spare capacity
 	cb, lb := observer.New(lvl)
 	cc, lc := observer.New(zapcore.DebugLevel)
 	var hooks atomic.Int64
